@@ -423,6 +423,26 @@ mut("c20-thread-branch-last", "C20", "src/divan.rs", "i == thread_counts.len() -
 mut("c20-slowest-shows-median", "C20,C05", TP, "TreeColumn::Slowest => &stats.time.slowest,", "TreeColumn::Slowest => &stats.time.median,")
 mut("c20-counter-row-uses-mean-time", "C20", TP, "let time = *column.get_stat(&stats.time)?;", "let time = stats.time.mean; let _ = column.get_stat(&stats.time)?;")
 
+# ---- C12 (macros)
+ML = "macros/src/lib.rs"
+MA = "macros/src/attr_options.rs"
+mut("c12-extern-consts-19", "C12", ML, "const MAX_EXTERN_COUNT: usize = 20;", "const MAX_EXTERN_COUNT: usize = 19;")
+mut("c12-extern-const-fallback-always-first", "C12", ML, "__DIVAN_CONSTS[if #i < __DIVAN_CONST_COUNT { #i } else { 0 }]", "__DIVAN_CONSTS[if #i < __DIVAN_CONST_COUNT && #i != 5 { #i } else { 0 }]")
+mut("c12-group-name-ignored", "C12", ML, """    let display_name: &dyn ToTokens = match &options.name_expr {
+        Some(name) => name,
+        None => &raw_name_pretty,
+    };""", """    let display_name: &dyn ToTokens = match &options.name_expr {
+        Some(name) if !raw_name.starts_with("inn") => name,
+        _ => &raw_name_pretty,
+    };""")
+mut("c12-raw-ident-not-stripped", "C12", ML, 'let raw_name_pretty = raw_name.strip_prefix("r#").unwrap_or(raw_name);', 'let raw_name_pretty = raw_name;')
+mut("c12-ignore-attr-dropped", "C12", MA, """                Some(ignore_attr_ident) => {
+                    quote! { #ignore_attr_ident: #option_some(true), }
+                }""", """                Some(ignore_attr_ident) => {
+                    quote! { #ignore_attr_ident: #option_some(false), }
+                }""")
+mut("c12-column-zero", "C12", ML, "col: ::std::column!(),", "col: ::std::column!() + 0 * ::std::line!() + 1,")
+
 def sh(cmd, **kw):
     return subprocess.run(cmd, shell=True, capture_output=True, text=True, **kw)
 
